@@ -122,3 +122,65 @@ Proof.
   - destruct (mkfix_oob v lo hi) eqn:X; [reflexivity|]. apply K_mkfix_oob in X.
     apply andb_false_iff in E. destruct E as [E|E]; apply Z.leb_gt in E; lia.
 Qed.
+
+(* the value setter in closed form *)
+Theorem set_value_spec p v :
+  set_value p v =
+  if p_isfixed p then (if v =? p_initial p then Ok (with_value p v) else Err ValueError)
+  else match p_valmin p, p_valmax p with
+       | Some lo, Some hi => if (lo <=? v) && (v <=? hi) then Ok (with_value p v) else Err ValueError
+       | _, _ => Err TypeError
+       end.
+Proof.
+  unfold set_value, setter_check. destruct (p_isfixed p).
+  - rewrite set_fixed_ne_b. destruct (v =? p_initial p); reflexivity.
+  - destruct (p_valmin p) as [lo|]; [|reflexivity]. rewrite set_below_b.
+    destruct (p_valmax p) as [hi|]; [|destruct (v <? lo); reflexivity]. rewrite set_above_b.
+    destruct (v <? lo) eqn:E1.
+    + apply Z.ltb_lt in E1. replace (lo <=? v) with false by (symmetry; apply Z.leb_gt; lia). reflexivity.
+    + apply Z.ltb_ge in E1. replace (lo <=? v) with true by (symmetry; apply Z.leb_le; lia). cbn [andb].
+      destruct (hi <? v) eqn:E2.
+      * apply Z.ltb_lt in E2. replace (v <=? hi) with false by (symmetry; apply Z.leb_gt; lia). reflexivity.
+      * apply Z.ltb_ge in E2. replace (v <=? hi) with true by (symmetry; apply Z.leb_le; lia). reflexivity.
+Qed.
+
+(* ---- the independent definitions of S_Params.v are the model's functions *)
+Lemma s_param_new_eq d : s_param_new d = param_new d.
+Proof. rewrite param_new_spec. reflexivity. Qed.
+Lemma s_make_fixed_eq p i : s_make_fixed p i = make_fixed p i.
+Proof. rewrite make_fixed_spec. reflexivity. Qed.
+Lemma s_make_floating_eq p i lo hi : s_make_floating p i lo hi = make_floating p i lo hi.
+Proof. rewrite make_floating_spec. reflexivity. Qed.
+Lemma s_set_value_eq p v : s_set_value p v = set_value p v.
+Proof. rewrite set_value_spec. reflexivity. Qed.
+Lemma s_entry_eq e : s_entry e = parse_fentry e.
+Proof. destruct e; reflexivity. Qed.
+Lemma s_fix_row_eq req p : s_fix_row req p = fix_one req p.
+Proof. unfold s_fix_row, fix_one. destruct (assoc req (p_name p)); [apply s_make_fixed_eq | reflexivity]. Qed.
+Lemma s_float_row_eq req p : s_float_row req p = float_one req p.
+Proof.
+  unfold s_float_row, float_one. destruct (assoc req (p_name p)) as [e|]; [|reflexivity].
+  rewrite s_entry_eq. destruct (parse_fentry e) as [[i lo] hi]. rewrite s_make_floating_eq. reflexivity.
+Qed.
+Lemma s_float_row_ok_eq req p : s_float_row_ok req p = float_row_ok req p.
+Proof.
+  unfold s_float_row_ok, float_row_ok. destruct (assoc req (p_name p)) as [e|]; [|reflexivity].
+  rewrite s_entry_eq. destruct (parse_fentry e) as [[i lo] hi]. cbn [fst snd]. rewrite s_make_floating_eq. f_equal.
+  destruct (floating_settings p i lo hi) as [t|err] eqn:E.
+  - destruct (make_floating_Ok p i lo hi (ex_intro _ t E)) as (p' & Hp' & _). rewrite Hp'. reflexivity.
+  - rewrite (make_floating_Err _ _ _ _ _ E). reflexivity.
+Qed.
+
+Lemma s_fix_old t req :
+  s_fix t req = if existsb (fun p => is_some (assoc req (p_name p)) && p_isfixed p) t then Err ValueError
+                else Ok (map (fix_one req) t).
+Proof. unfold s_fix. rewrite (map_ext _ _ (s_fix_row_eq req)). reflexivity. Qed.
+Lemma s_float_old t req :
+  s_float t req = if forallb (float_row_ok req) t then Ok (map (float_one req) t) else Err ValueError.
+Proof.
+  unfold s_float. rewrite (map_ext _ _ (s_float_row_eq req)).
+  replace (forallb (s_float_row_ok req) t) with (forallb (float_row_ok req) t); [reflexivity|].
+  induction t as [|p t IH]; [reflexivity|]. cbn. rewrite s_float_row_ok_eq, IH. reflexivity.
+Qed.
+Lemma s_setv_old t k v : s_setv t k v = do p <- py_get t k; do p' <- set_value p v; py_set t k p'.
+Proof. unfold s_setv. destruct (py_get t k); cbn [bind]; [rewrite s_set_value_eq|]; reflexivity. Qed.
